@@ -14,23 +14,23 @@ The read-back theorems (`Props.C02.read_any_decode`, `read_typed_decode`) carry 
 `Read.new Fixes.all a = ok ()` (the reader can be constructed), `Read.physical a` (lengths representable),
 `Read.utf8Ok lv` (decoded strings are valid UTF-8).  Here they are DERIVED for the arrays `to_marrow` returns and composed
 with `Props.C01.C01_build_decode'` (the hidden-rows refinement, Props/C01Obs.lean: NO `Safe` hypothesis anywhere in this
-file; `toMarrow_readable` carries exactly the hypothesis of `C03_wf'`, `Safe ∨ coveredF`, the others `coveredF`):
+file; `toMarrow_readable` carries exactly the hypothesis of `C03_wfS'`, `Safe ∨ coveredF`, the others `coveredF`):
 
-  wf_new              WF f a, `readableDT f.dataType`      ⇒  Read.new Fixes.all a = ok ()
-  wf_utf8             WF f a, decodeAt a i = ok lv          ⇒  utf8Ok lv                       (no further hypothesis)
-  wf_physical_plain   WF f a, `physFreeDT f.dataType`      ⇒  Read.physical a   (types without FixedSizeList / Dictionary;
-                      `wf_not_physical`: `Spec.WF` alone does not bound the sizes `physical` speaks about)
+  wf_new              WFS f a, `readableDT f.dataType`      ⇒  Read.new Fixes.all a = ok ()
+  wf_utf8             WFS f a, decodeAt a i = ok lv          ⇒  utf8Ok lv                       (no further hypothesis)
+  wf_physical_plain   WFS f a, `physFreeDT f.dataType`      ⇒  Read.physical a   (types without FixedSizeList / Dictionary;
+                      `wf_not_physical`: `Spec.WFS` alone does not bound the sizes `physical` speaks about)
   toMarrow_physical   ALL types, FixedSizeList and Dictionary included: every array `to_marrow` BUILDS is `Read.physical`
                       when the schema-computed lengths fit — `sizeOKDT f.dataType rows.length`, a decidable predicate on
                       (schema, number of records): FixedSizeList<_, n> of at most L rows needs `n * L ≤ usize::MAX`, a
                       Dictionary of at most L rows `L ≤ i64::MAX`; L is `rows.length` at the top, `i32::MAX` / `i64::MAX`
                       below a List / Map / LargeList.  From the builders' counting invariant `Cnt` (dictionary values ≤ keys
-                      pushed, union per-variant counters ≤ rows: Lemmas/C03PhysCnt.lean), not from `Spec.WF`.
+                      pushed, union per-variant counters ≤ rows: Lemmas/C03PhysCnt.lean), not from `Spec.WFS`.
                       `sizeOK_of_fslFree`: without FixedSizeList the only condition is `rows.length ≤ i64::MAX`.
                       `input_bound_not_enough`: a bound on the INPUT alone cannot do (one `None` into a nested nullable
                       FixedSizeList appends `n1 * n2 * n3` child slots), so the schema has to enter the bound.
   wf_dense / wf_dict_values_not_null   what the reader refuses and the builders never produce (sparse unions, nullable
-                      dictionary values): excluded by WF itself
+                      dictionary values): excluded by WFS itself
   toMarrow_readable   every array of `to_marrow` is accepted by `ArrayDeserializer::new`, has `rows.length` rows for the
                       reader (`vlen`), only decodes to valid UTF-8
   toMarrow_readAny    reading back what was built gives the documented value of the input: `readAny arrs[j] i` is the
@@ -51,35 +51,35 @@ open SaModel.Lemmas.C03 (readableDT readableF readableFs physFreeDT sizeOKDT fsl
 
 /-- **`wf_new`**: `ArrayDeserializer::new` accepts every well-formed array of a field whose type the reader supports —
 every array kind, any nesting (generalises `Roundtrip.new_of_wf`, which was for traced enum-free schemas) -/
-theorem wf_new (f : Field) (a : Arr) (hr : readableDT f.dataType = true) (h : WF f a = true) :
+theorem wf_new (f : Field) (a : Arr) (hr : readableDT f.dataType = true) (h : WFS f a = true) :
     Read.new Read.Fixes.all a = .ok () := Lemmas.C03.WF_new f a hr h
 
 /-- **`wf_utf8`**: every string inside the logical value of any slot of a well-formed array is valid UTF-8 -/
-theorem wf_utf8 (f : Field) (a : Arr) (i : Nat) (lv : LVal) (h : WF f a = true) (hd : decodeAt a i = .ok lv) :
+theorem wf_utf8 (f : Field) (a : Arr) (i : Nat) (lv : LVal) (h : WFS f a = true) (hd : decodeAt a i = .ok lv) :
     Read.utf8Ok lv = true := Lemmas.C03.WF_utf8 f a i lv h hd
 
 /-- **`wf_physical_plain`**: `Read.physical` from well-formedness ALONE, for types without FixedSizeList and Dictionary
-(a complete statement about `Spec.WF`: for the two excluded families `Spec.WF` does not imply `physical`, `wf_not_physical`;
+(a complete statement about `Spec.WFS`: for the two excluded families `Spec.WFS` does not imply `physical`, `wf_not_physical`;
 for the arrays `to_marrow` BUILDS `toMarrow_physical` below covers every type). -/
-theorem wf_physical_plain (f : Field) (a : Arr) (hp : physFreeDT f.dataType = true) (h : WF f a = true) :
+theorem wf_physical_plain (f : Field) (a : Arr) (hp : physFreeDT f.dataType = true) (h : WFS f a = true) :
     Read.physical a = true := Lemmas.C03.WF_physical_plain f a hp h
 
-/-- `Spec.WF` alone does not give `Read.physical` (witness: FixedSizeList<Null, 2> of 2^63 rows) -/
+/-- `Spec.WFS` alone does not give `Read.physical` (witness: FixedSizeList<Null, 2> of 2^63 rows) -/
 theorem wf_not_physical :
     let f : Field := .mk "c" (.fixedSizeList (.mk "element" .null false []) 2) false []
     let a : Arr := .fixedSizeList (2 ^ 63) none 2 ⟨"element", false, []⟩ (.null (2 ^ 64))
-    WF f a = true ∧ Read.physical a = false := Lemmas.C03.wf_not_physical
+    WFS f a = true ∧ Read.physical a = false := Lemmas.C03.wf_not_physical
 
-/-- the builders never produce a SPARSE union (the reader only supports dense ones): excluded by `WF`, hence by `C03_wf` -/
-theorem wf_dense (f : Field) (types : List Int) (cols : ArrUFields) : WF f (.union types none cols) = false := by
+/-- the builders never produce a SPARSE union (the reader only supports dense ones): excluded by `WFS`, hence by `C03_wfS` -/
+theorem wf_dense (f : Field) (types : List Int) (cols : ArrUFields) : WFS f (.union types none cols) = false := by
   rcases f with ⟨n, dt, nl, md⟩
-  cases dt <;> simp [WF, Field.dataType, Field.nullable, wf]
+  cases dt <;> simp [WFS, Field.dataType, Field.nullable, wf]
 
 /-- the builders never produce a dictionary whose VALUES carry a validity bitmap (the reader refuses nullable values) -/
 theorem wf_dict_values_not_null (f : Field) (ks : Arr) (ty : BytesTy) (b : Bits) (offs : List Int) (data : Bytes) :
-    WF f (.dictionary ks (.bytes ty (some b) offs data)) = false := by
+    WFS f (.dictionary ks (.bytes ty (some b) offs data)) = false := by
   rcases f with ⟨n, dt, nl, md⟩
-  cases dt <;> simp only [WF, Field.dataType, Field.nullable, wf]
+  cases dt <;> simp only [WFS, Field.dataType, Field.nullable, wf]
   rename_i k v
   cases hv : wf v false (.bytes ty (some b) offs data) with
   | false => simp
@@ -89,10 +89,10 @@ theorem wf_dict_values_not_null (f : Field) (ks : Arr) (ty : BytesTy) (b : Bits)
 
 /-! ### the arrays `to_marrow` returns are readable -/
 
-/-- **`toMarrow_readable`**.  Under the hypotheses of `C03_wf'` and for a schema the reader supports (`readableDT`), every
+/-- **`toMarrow_readable`**.  Under the hypotheses of `C03_wfS'` and for a schema the reader supports (`readableDT`), every
 array `to_marrow` returns is accepted by `ArrayDeserializer::new`, holds `rows.length` rows as far as the reader is
 concerned (`ViewExt::len`), decodes to valid UTF-8 only, and — for types without FixedSizeList / Dictionary — has
-representable lengths.  `hsafe` is the hypothesis of `Props.C01.C03_wf'`: `Safe` OR `coveredF` (both decidable on the
+representable lengths.  `hsafe` is the hypothesis of `Props.C01.C03_wfS'`: `Safe` OR `coveredF` (both decidable on the
 schema; what is excluded is a dictionary with NON-nullable keys and a value type other than Utf8 / LargeUtf8 below a
 nullable struct / fixed-size list).  The composed theorems below have `coveredF` anyway and carry no `Safe`. -/
 theorem toMarrow_readable (ext : Ext) (fields : List Field) (rows : List SVal) (arrs : List Arr)
@@ -107,7 +107,7 @@ theorem toMarrow_readable (ext : Ext) (fields : List Field) (rows : List SVal) (
       Read.new Read.Fixes.all a = .ok () ∧ Read.vlen a = rows.length ∧
       (∀ i lv, decodeAt a i = .ok lv → Read.utf8Ok lv = true) ∧
       (physFreeDT f.dataType = true → Read.physical a = true) := by
-  obtain ⟨hlen, hwf⟩ := Props.C01.C03_wf' ext fields rows arrs hschema hsafe hext hrows h
+  obtain ⟨hlen, hwf⟩ := Props.C01.C03_wfS' ext fields rows arrs hschema hsafe hext hrows h
   refine ⟨hlen, ?_⟩
   intro j f a hf ha
   obtain ⟨hw, hl⟩ := hwf j f a hf ha
@@ -154,7 +154,7 @@ Hypotheses besides `hsize`: `coveredF` (the schema hypothesis of `C01_build_deco
 `serialize_key` / `serialize_value` streams) — those of `Props.C11.push_determined`; no `SchemaOKF`, `ExtOK`, `SValOK`, `Safe`.
 Derived from the builders' own bookkeeping: the counting invariant `Cnt` (a dictionary holds at most as many values as keys were
 pushed; the per-variant counters of a union are at most its row count), the row-count invariant `WFH` and the offset bounds
-`PX` of the final state — NOT from `Spec.WF` of the arrays (`wf_not_physical`). -/
+`PX` of the final state — NOT from `Spec.WFS` of the arrays (`wf_not_physical`). -/
 theorem toMarrow_physical (ext : Ext) (fields : List Field) (rows : List SVal) (arrs : List Arr)
     (hcov : fields.all Build.coveredF = true)
     (hraw : ∀ x ∈ rows, Build.noRaw x = true)
@@ -296,7 +296,7 @@ theorem toMarrow_readAny_of_physical (ext : Ext) (fields : List Field) (rows : L
 /-- **`toMarrow_readAny`** — reading back what was built gives the documented value of the input.  Whenever `to_marrow`
 returns arrays, slot `i` of array `j`, read with `deserialize_any`, is the `toD` rendering of the `j`-th field of
 `interpRow ext fields rows[i]` (`cols`: the decoded columns of `C01_build_decode`).  NO reader-side hypothesis, EVERY type the
-reader supports (FixedSizeList and Dictionary columns included): the hypotheses are those of `C01_build_decode'` and `C03_wf'`
+reader supports (FixedSizeList and Dictionary columns included): the hypotheses are those of `C01_build_decode'` and `C03_wfS'`
 (schema: `SchemaOKF`, `coveredF` — NO `Safe`; rows: `noRaw`, `SValOK`; `ExtOK`), plus the two schema conditions of this file —
 `readableDT` (types the reader supports) and `hsize` (`sizeOKDT`: the lengths computed from the schema and the number of
 records fit `usize` / `i64`; `rows.length ≤ i64::MAX` when there is no FixedSizeList: `sizeOK_of_fslFree`), from which
@@ -345,7 +345,7 @@ theorem toMarrow_readRecord_of_physical (ext : Ext) (fields : List Field) (rows 
     ∀ (i : Nat) (hi : i < rows.length), ∃ lv, interpRow ext fields rows[i] = .ok lv ∧
       Roundtrip.readRecord .any fields arrs i = .ok (Read.toD (Roundtrip.rootArr fields arrs rows.length) lv) := by
   obtain ⟨hlen, cols, hc1, hc2, hc3, hc4⟩ := Props.C01.C01_build_decode' ext fields rows arrs hschema hcov (fun x hx => Build.noRaw_ssa x (hraw x hx)) (Or.inl hraw) h
-  obtain ⟨_, hwf⟩ := Props.C01.C03_wf' ext fields rows arrs hschema (Or.inr hcov) hext hrows h
+  obtain ⟨_, hwf⟩ := Props.C01.C03_wfS' ext fields rows arrs hschema (Or.inr hcov) hext hrows h
   have hcols : Spec.wfFields (Fields.ofList fields) (Roundtrip.zipCols fields arrs) rows.length = true :=
     Roundtrip.zip_wf rows.length fields arrs hlen hwf
   have hnewF : Read.newFields Read.Fixes.all (Roundtrip.zipCols fields arrs) = .ok () :=
@@ -414,7 +414,7 @@ the hypotheses hold (computed) and the conclusions are the computed facts -/
 example :
     let f : Field := .mk "d" (.dictionary .int8 .utf8) true []
     let a : Arr := .dictionary (.prim .int8 (some ⟨[0b101], 0⟩) [1, 0, 0]) (.bytes .utf8 none [0, 1, 3] [97, 0xC3, 0xA9])
-    WF f a = true ∧ readableDT f.dataType = true ∧ decodeAt a 0 = .ok (.str [0xC3, 0xA9]) ∧
+    WFS f a = true ∧ readableDT f.dataType = true ∧ decodeAt a 0 = .ok (.str [0xC3, 0xA9]) ∧
       Read.new Read.Fixes.all a = .ok () ∧ Read.utf8Ok (.str [0xC3, 0xA9]) = true := by decide
 
 example :
@@ -423,7 +423,7 @@ example :
     let a : Arr := .list true none [0, 2, 3] ⟨"u", false, []⟩
       (.union [1, 0, 1] (some [0, 0, 1]) (.cons 0 ⟨"N", true, []⟩ (.null 1)
         (.cons 1 ⟨"S", false, []⟩ (.bytes .largeUtf8 none [0, 1, 1] [120]) .nil)))
-    WF f a = true ∧ readableDT f.dataType = true ∧ physFreeDT f.dataType = true ∧
+    WFS f a = true ∧ readableDT f.dataType = true ∧ physFreeDT f.dataType = true ∧
       Read.new Read.Fixes.all a = .ok () ∧ Read.physical a = true := by decide
 
 /-- the reader refuses what `readableDT` excludes although the array is well formed: an unknown strategy on a child field,
@@ -433,8 +433,8 @@ example :
     let a : Arr := .list false none [0] ⟨"element", false, [("SERDE_ARROW:strategy", "Nope")]⟩ (.prim .int8 none [])
     let g : Field := .mk "d" (.dictionary .int8 .date32) false []
     let b : Arr := .dictionary (.prim .int8 none [0]) (.prim .date32 none [7])
-    WF f a = true ∧ readableDT f.dataType = false ∧ (Read.new Read.Fixes.all a).isOk = false ∧
-    WF g b = true ∧ readableDT g.dataType = false ∧ (Read.new Read.Fixes.all b).isOk = false := by decide
+    WFS f a = true ∧ readableDT f.dataType = false ∧ (Read.new Read.Fixes.all a).isOk = false ∧
+    WFS g b = true ∧ readableDT g.dataType = false ∧ (Read.new Read.Fixes.all b).isOk = false := by decide
 
 /-- `toMarrow_readRecord` / `toMarrow_readAny` on the worked instance of Props/C03.lean (`{a: Int32?, l: List<Int8>}`, two
 records): every hypothesis discharged, so reading the built arrays back returns the documented values unconditionally -/
